@@ -38,7 +38,7 @@ def main():
     demo_name = f"demo_{pid.lower()}_{which}"
     meta = {"id": sid, "breaks_property": pid, "source": "independent sub-agent given only the property text and a scratch worktree", "confirmed": {}, "detection": {}}
     notes = open(f"{src}/NOTES.md").read() if os.path.exists(f"{src}/NOTES.md") else ""
-    if pid.startswith(("F", "A")):
+    if pid.startswith(("F", "A", "M")):
         # file-based round: the first line of NOTES.md names the broken properties
         m = re.search(r"BREAKS:\s*([C0-9, ]+)", notes)
         broken = [x.strip() for x in m.group(1).split(",") if x.strip()] if m else []
